@@ -191,7 +191,14 @@ def gen_attr(rng, out, n):
         a = scramble(rng, base)
         r = rng.random()
         tags = ['attr']
-        if r < 0.5:
+        if r < 0.06:
+            # the same map with an equal value in another representation: the sign of a zero double
+            z = rng.choice(['0000000000000000', '8000000000000000']); z2 = '8000000000000000' if z[0] == '0' else '0000000000000000'
+            k = rng.choice([k for k in KEYS if k not in keys])
+            arr = rng.random() < 0.3
+            a = scramble(rng, base + [(k, ('ad:3ff0000000000000+' + z) if arr else 'd:' + z)])
+            b = scramble(rng, base + [(k, ('ad:3ff0000000000000+' + z2) if arr else 'd:' + z2)]); tags.append('equal-value-other-representation')
+        elif r < 0.5:
             b = scramble(rng, base); tags.append('same-map-other-listing')
         elif r < 0.62 and base:
             b = list(base); i = rng.randrange(len(b)); b[i] = (b[i][0], rand_value(rng)); b = scramble(rng, b); tags.append('one-value-changed')
@@ -291,6 +298,11 @@ def corpus():
     c('attr eq 6100 6100=i64:1 61=i64:1', 'D11-key-with-NUL')
     c('attr eqg 6162 6162=i64:1 6162=i64:1', 'D11-unterminated-key')
     c('series storeg 4 6162 D rec 6162=i64:1 5 ; rec 6162=i64:2 6 ; col 0', 'D11-unterminated-key')
+    # +0.0 and -0.0 are equal values: one key, one hash, one series (scalars and array elements)
+    c('attr eq * 61=d:0000000000000000 61=d:8000000000000000', 'zero-sign')
+    c('attr eq * 61=ad:8000000000000000+3ff0000000000000,62=i64:1 62=i64:1,61=ad:0000000000000000+3ff0000000000000', 'zero-sign')
+    c('series store 4 * D rec 61=d:0000000000000000 5 ; rec 61=d:8000000000000000 6 ; col 0', 'zero-sign')
+    c('series sdk * C rec 61=d:8000000000000000 5 ; col 0 ; rec 61=d:0000000000000000 6 ; col 0', 'zero-sign')
     # the empty attribute set is one series whichever overload recorded it (no attributes / no attributes + context / empty list / all keys filtered)
     c('series store 4 * D rec ~ 5 ; rec - 6 ; rec ~c 1 ; col 0', 'empty-set-overloads')
     c('series sdk * C rec ~ 5 ; rec - 6 ; col 0 ; rec ~c 1 ; col 0', 'empty-set-overloads')
